@@ -106,11 +106,12 @@ type Specs struct {
 	Files   []string
 	Scan    map[string]int // count of assume/trusted/abstracts/opaque keywords
 	Pools   map[string]*PoolDecl
+	Preds   map[string]*SpecFunc // heap-reading predicates (macros): pred name(a, b) = expr
 }
 
 func NewSpecs() *Specs {
 	return &Specs{Funcs: map[string]*FuncSpec{}, SpecFns: map[string]*SpecFunc{}, Ghosts: map[string]*GhostField{},
-		GhostGl: map[string]string{}, Consts: map[string]string{}, Scan: map[string]int{}, Pools: map[string]*PoolDecl{}}
+		GhostGl: map[string]string{}, Consts: map[string]string{}, Scan: map[string]int{}, Pools: map[string]*PoolDecl{}, Preds: map[string]*SpecFunc{}}
 }
 
 var reLabel = regexp.MustCompile(`^\[([^\]]+)\]\s*`)
@@ -343,6 +344,22 @@ func (sp *Specs) LoadSpecFile(path string) error {
 			sp.SpecFns[sf.Name] = sf
 			sp.SpecOrd = append(sp.SpecOrd, sf.Name)
 			lastExpr = &sf.Body
+			cur = nil
+		case "pred":
+			// pred INV_df(df) = expr   (macro over the current heap; parameters are untyped names)
+			k := strings.Index(rest, "=")
+			l, r := strings.Index(rest, "("), strings.Index(rest, ")")
+			if k < 0 || l < 0 || r < 0 || r > k {
+				return fmt.Errorf("%s:%d: bad pred", path, ln)
+			}
+			pf := &SpecFunc{Name: strings.TrimSpace(rest[:l]), Body: strings.TrimSpace(rest[k+1:]), File: path, Line: ln}
+			for _, a := range strings.Split(rest[l+1:r], ",") {
+				if strings.TrimSpace(a) != "" {
+					pf.Params = append(pf.Params, strings.TrimSpace(a))
+				}
+			}
+			sp.Preds[pf.Name] = pf
+			lastExpr = &pf.Body
 			cur = nil
 		case "const":
 			k := strings.Index(rest, "=")
